@@ -691,3 +691,7 @@ _CORPUS_ORSWOT = dict(name="repo_orswot_tests.txt", corpus=True, quick=1, thorou
 for _pid in ("C01", "C02", "C03", "C04", "C07", "C08", "C09", "C20"):
     PROPS[_pid]["profiles"] = [_CORPUS_ORSWOT] + PROPS[_pid]["profiles"]
 PROPS["C18"]["profiles"] = [dict(name="c18_f11_collision.txt", corpus=True, quick=1, thorough=1)] + PROPS["C18"]["profiles"]
+
+_CORPUS_MAP = dict(name="repo_map_tests.txt", corpus=True, quick=1, thorough=1)
+for _pid in ("C05", "C01", "C02", "C03", "C07", "C08", "C09", "C20"):
+    PROPS[_pid]["profiles"] = [_CORPUS_MAP] + PROPS[_pid]["profiles"]
